@@ -172,13 +172,28 @@ def lake_build(targets):
     return r.returncode == 0, r.stdout
 
 
+def prop_modules(prop):
+    """the property's theorem modules: Props/CNN.lean and, when present, Props/CNNGen.lean (equivalence of
+    definitions regenerated from /repo's sources by translators/c2lean.py with the hand-written model)"""
+    mods = ["Uft.Props." + prop]
+    if os.path.exists(os.path.join(LEAN, "Uft", "Props", prop + "Gen.lean")):
+        mods.append("Uft.Props." + prop + "Gen")
+    return mods
+
+
 def theorem_names(prop):
-    """Property theorems are the `theorem cNN_*` declarations of Props/CNN.lean."""
-    path = os.path.join(LEAN, "Uft", "Props", prop + ".lean")
-    src = open(path).read()
-    ns = re.findall(r"^namespace\s+(\S+)", src, re.M)
-    names = re.findall(r"^theorem\s+(%s_\w+)" % prop.lower(), src, re.M)
-    return (ns[0] if ns else ""), names
+    """Property theorems are the `theorem cNN_*` declarations of Props/CNN.lean (and Props/CNNGen.lean)."""
+    ns0, names = "", []
+    for m in prop_modules(prop):
+        src = open(os.path.join(LEAN, m.replace(".", "/") + ".lean")).read()
+        ns = re.findall(r"^namespace\s+(\S+)", src, re.M)
+        found = re.findall(r"^theorem\s+(%s_\w+)" % prop.lower(), src, re.M)
+        if m.endswith("Gen") and ns and ns[0] != ns0:
+            found = [ns[0] + "." + n for n in found]      # fully qualified: another namespace
+        elif ns and not ns0:
+            ns0 = ns[0]
+        names += found
+    return ns0, names
 
 
 def strip_comments(src):
@@ -202,7 +217,7 @@ def forbidden_scan(files):
 
 def lean_deps(prop):
     """Transitive project-local imports of Props/CNN.lean (files)."""
-    seen, todo = [], ["Uft.Props." + prop]
+    seen, todo = [], prop_modules(prop)
     while todo:
         m = todo.pop()
         f = os.path.join(LEAN, m.replace(".", "/") + ".lean")
@@ -224,7 +239,7 @@ def audit(ctx, prop):
     if not names:
         return ["no property theorems found in Props/%s.lean" % prop]
     tmp = os.path.join(LEAN, ".lake", "audit_%s_%d.lean" % (prop, os.getpid()))
-    body = "import Uft.Props.%s\n" % prop
+    body = "".join("import %s\n" % m for m in prop_modules(prop))
     if ns:
         body += "open %s\n" % ns
     for n in names:
@@ -241,8 +256,10 @@ def audit(ctx, prop):
     found = {}
     for m in re.finditer(r"'([\w.]+)' (depends on axioms: \[([^\]]*)\]|does not depend on any axioms)", out):
         name = m.group(1).split(".")[-1]
+        full = m.group(1)
         axs = [a.strip() for a in (m.group(3) or "").replace("\n", " ").split(",") if a.strip()]
         found[name] = axs
+        found[full] = axs
     for n in names:
         if n not in found:
             problems.append("theorem %s not reported by #print axioms" % n)
@@ -354,7 +371,7 @@ def prove(ctx, prop, extra_targets=()):
     """Step 3 of the run flow: build the property's theorems and the driver, audit.
     A failure is recorded as a broken proof obligation (violation w/o failing input
     unless the caller finds one)."""
-    ok, log = lake_build(["Uft.Props." + prop, "uvmodel"] + list(extra_targets))
+    ok, log = lake_build(prop_modules(prop) + ["uvmodel"] + list(extra_targets))
     if not ok:
         errs = [l for l in log.split("\n") if l.startswith("error")]
         return False, ["lake build failed"] + errs[:20]
